@@ -257,7 +257,50 @@ def _replay_dtp(model, ob):
         if got != want or not contents_ok:
             return {"confirmed": True, "function": "_detailed_tag_parser", "inputs": {"text": text, "lineno": 1, "start_index": 0},
                     "expected": f"token ends at {want} (first %}} outside quoted strings)", "observed": f"ends at {got}" if got else "TemplateSyntaxError"}
+    slow = _time_budget()
+    if slow:
+        return slow
     return {"confirmed": False, "tried": cands}
+
+
+def _time_budget():
+    """BOUNDED stand-in for the cost clause of C12 (the contracts do not model running time): adversarial inputs - long runs of
+    backslashes / quotes in unterminated and terminated strings, 4000-character tags - must lex within a generous budget.
+    Runs in a child process that is killed when the budget is exceeded."""
+    import multiprocessing as mp
+    import time
+    inputs = {
+        "unterminated string with 28 backslashes": '{% a "' + "\\" * 28,
+        "unterminated string with 45 backslashes before the tag end": '<div>{% component "' + "\\" * 45 + " %}</div>",
+        "unterminated ' string with 46 backslashes before the tag end": "{% component '" + "\\" * 46 + " %}",
+        "unterminated string with 40 escaped quotes": "{% a '" + "\\'" * 40,
+        "4000 quotes": "{% a " + '"' * 4000 + " %}",
+        "tag of 4000 characters": "{% a " + "b=1 " * 1000 + "%}",
+        "2000 percent signs": "{% a " + "%" * 2000 + " %}",
+    }
+    ctx = mp.get_context("fork")
+    for label, text in inputs.items():
+        p = ctx.Process(target=_lex_once, args=(text,))
+        t0 = time.time()
+        p.start()
+        p.join(4.0)
+        if p.is_alive():
+            p.kill()
+            p.join()
+            return {"confirmed": True, "function": "_detailed_tag_parser", "inputs": {"text": label, "length": len(text)},
+                    "expected": "lexing a tag of this size takes milliseconds (success or TemplateSyntaxError)", "observed": f"still running after {time.time() - t0:.1f} s (killed)"}
+    return None
+
+
+def _lex_once(text):
+    from django.template.exceptions import TemplateSyntaxError
+    from django_components.util.template_parser import _detailed_tag_parser, parse_template
+    try:
+        if text.startswith("{%"):
+            _detailed_tag_parser(text, 1, 0)
+        parse_template(text)
+    except TemplateSyntaxError:
+        pass
 
 
 # =================================================================================================== parse_template
